@@ -331,6 +331,17 @@ func battery(e *env, viaSlow bool) []string {
 		}))
 	}
 	out = append(out, "Range="+try(func() string { return rangeSet(e.m, viaSlow) }))
+	for stopAt := 1; stopAt <= 3; stopAt++ {
+		stopAt := stopAt
+		out = append(out, fmt.Sprintf("Range(stop-at-visit-%d)=", stopAt)+try(func() string {
+			n := 0
+			e.m.Range(func(protoreflect.FieldDescriptor, protoreflect.Value) bool {
+				n++
+				return n < stopAt
+			})
+			return fmt.Sprint(n)
+		}))
+	}
 	out = append(out, "GetUnknown="+try(func() string { return fmt.Sprintf("%x", []byte(e.m.GetUnknown())) }))
 	var hs []int
 	for n := range e.h {
